@@ -108,22 +108,28 @@ func (x *Exec) libModel(fr *Frame, st *State, ins ssa.Instruction, callee *ssa.F
 		set(r)
 		return true
 	case "strings.Split", "strings.SplitN", "strings.Fields":
-		if vc.noName > 0 {
-			panic(engErr("strings.Split inside quantifier body"))
+		// deterministic: length and contents are uninterpreted functions of the arguments;
+		// the result is a freshly allocated slice holding them.
+		var sorts []Sort
+		for _, a := range args {
+			sorts = append(sorts, a.Sort)
 		}
-		r := x.freshOf(st, "split", callee.Signature.Results().At(0).Type())
-		nt := vc.fresh("top", SInt)
-		vc.assert(and(lt(st.top, nt), eq(sArr(r), nt)))
-		st.top = nt
-		st.written["top"] = true
-		if full == "strings.Split" {
-			// len >= 1 unless both s and sep are empty
-			vc.assert(implies(not(eq(args[1], strLit(""))), le(intLit(1), sLen(r))))
-			vc.assert(eq(sOff(r), intLit(0)))
-			// a string without the separator splits into itself
-			arr, off, _ := x.sliceParts(st, r, stringT)
-			vc.assert(implies(and(not(eq(args[1], strLit(""))), not(app(SBool, "str.contains", args[0], args[1]))),
-				and(eq(sLen(r), intLit(1)), eq(sel(arr, off, SString), args[0]))))
+		tag := mangle(full)
+		vc.declareFun("splitlen_"+tag, sorts, SInt)
+		vc.declareFun("splitarr_"+tag, sorts, arraySort(SInt, SString))
+		ln := app(SInt, "splitlen_"+tag, args...)
+		arrT := app(arraySort(SInt, SString), "splitarr_"+tag, args...)
+		ref := x.alloc(st, types.NewArray(stringT, 0), arrT)
+		r := mkSlice(ref, intLit(0), ln, ln)
+		if vc.noName == 0 {
+			vc.assert(and(le(intLit(0), ln), le(ln, bigIntLit("9223372036854775807"))))
+			if full == "strings.Split" {
+				// len >= 1 unless the separator is empty; a string without the separator splits into itself
+				vc.assert(implies(not(eq(args[1], strLit(""))), le(intLit(1), ln)))
+				vc.assert(implies(and(not(eq(args[1], strLit(""))), not(app(SBool, "str.contains", args[0], args[1]))),
+					and(eq(ln, intLit(1)), eq(sel(arrT, intLit(0), SString), args[0]))))
+			}
+			r = vc.name("split", r)
 		}
 		set(r)
 		return true
